@@ -170,7 +170,17 @@ func (c *Ctx) Exhaustive(b bool) { c.mu.Lock(); c.exhaustive = b; c.mu.Unlock() 
 // Inconclusive marks the run as undecided (never folded into held/violated).
 func (c *Ctx) Inconclusive(why string) {
 	c.mu.Lock()
-	c.inconcl = append(c.inconcl, why)
+	dup := false
+	for _, w := range c.inconcl {
+		if w == why {
+			dup = true
+		}
+	}
+	if !dup && len(c.inconcl) < 20 {
+		c.inconcl = append(c.inconcl, why)
+	} else if len(c.inconcl) == 0 {
+		c.inconcl = append(c.inconcl, why)
+	}
 	c.mu.Unlock()
 }
 
